@@ -111,6 +111,8 @@ def structural_items(otype, s):
         out.append([repeated(s.key, REPEATED_VALUES[0])])
         out.append([repeated(s.key, REPEATED_VALUES[0]), repeated(s.key, REPEATED_VALUES[1])])
         out.append([repeated(s.key, v) for v in REPEATED_VALUES])
+        # the same value more than once (nothing written in the text may be dropped)
+        out.append([repeated(s.key, v) for v in ("x", "two words", "x", "x")])
     return out
 
 
